@@ -317,7 +317,8 @@ def run_job(job, use_cache=True):
             elif any(o["status"] not in ("SUCCESS", "FAILURE") for o in obl):
                 res.update({"status": "undecided", "reason": "obligation with status other than SUCCESS/FAILURE"})
             else:
-                res["status"] = "pass" if res["n_ok"] == res["n"] else "fail"
+                # must-fail vacuity controls are expected to fail: they do not make a run "fail"
+                res["status"] = "fail" if real_fail else "pass"
         res["wall_s"] = round(time.time() - t0, 2)
         res.setdefault("obligations", [])
         res.setdefault("n", 0)
